@@ -58,9 +58,13 @@ def simple_sel(prop, laws=(), extra=(), quick_scope='pairs'):
 def c08(tier):
     law = lambda scope, n, docs, t=900: dict(kind='tlc', module='Gen_Select', label='law-compose-' + scope, constants=SEL(n, scope, docs), invariants=['LawCompose'], timeout=t)
     if tier == 'quick':
-        return [law('triples', 2, 'small'), sel('pairs', 'C08', SEL(2, 'pairs', 'small'), ['Emit']), EXTRAS('C08')]
+        return [law('triples', 2, 'small'), sel('pairs', 'C08', SEL(2, 'pairs', 'small'), ['Emit']), EXTRAS('C08'),
+                sel('nested-descents', 'C08', SEL(3, 'recrec', 'rec'), ['LawCompose', 'Emit']),
+                sel('one-step-funcs', 'C08', SEL(1, 'triples', 'small', funcs=True, fset='small'), ['Emit'])]
     return [law('pairs', 2, 'full', 3600), law('triples', 3, 'small', 7200), sel('pairs', 'C08', SEL(2, 'pairs', 'full'), ['Emit'], timeout=3600),
-            sel('triples', 'C08', SEL(3, 'triples', 'full'), ['Emit'], timeout=7200)]
+            sel('triples', 'C08', SEL(3, 'triples', 'full'), ['Emit'], timeout=7200),
+            sel('nested-descents', 'C08', SEL(3, 'recrec', 'rec'), ['LawCompose', 'Emit']),
+            sel('funcs', 'C08', SEL(2, 'triples', 'small', funcs=True, fset='small'), ['Emit'], timeout=3600)]
 
 
 def mech(scope, n, docs, timeout=1800, funcs=False):
